@@ -4,7 +4,8 @@ func branch(pc ProgramCounter, b ProgramCounter, C bool, bitmask Bitmask, instru
 	switch {
 	case !C:
 		return ExitContinue, pc
-	case !bitmask.IsStartOfBasicBlock(b) && instruction.isOpcodeValid(b):
+	case !bitmask.IsStartOfBasicBlock(b):
+		// also covers targets past the end of the code
 		return ExitPanic, pc
 	default:
 		return ExitContinue, b
